@@ -164,6 +164,32 @@ pub fn generate(o: &mut Out, r: &mut Rng, n: u64) {
         o.case("text", vec!["dec_json_dec".into(), hex(j)]);
         o.case("text", vec!["uint_json_dec".into(), hex(j)]);
     }
+    // JSON strings with escapes: the deserializer unescapes before the numeral is parsed
+    for j in [r#""\u0031""#, r#""1\u002e5""#, r#""\u0031\u0032""#, r#""\u002E""#, r#""\u002e""#, r#""\/""#, r#""\"""#, r#""1\"2""#,
+              r#""\\""#, r#""\b""#, r#""\f""#, r#""\n""#, r#""\r""#, r#""\t""#, r#""\x""#, r#""\0""#, r#""\a""#, r#""\U0031""#, r#""\u12""#,
+              r#""\u""#, r#""\uZZZZ""#, r#""\u123g""#, r#""\u0000""#, r#""\u007f""#, r#""\u0080""#, r#""\u00e9""#, r#""\ud800""#, r#""\udc00""#,
+              r#""\ud83d\ude00""#, r#""\ud800\ud800""#, r#""\ud800a\udc00""#, r#""\ud800\u0031\udc00""#, r#""1\""#, r#""\"#, r#""1"2""#,
+              "\"\u{e9}\"", "\"1\u{1}2\"", "\"\\u0031\u{1}\"", r#" "\u0031\u0032" "#, r#""\u0039\u0039\u0039.\u0035""#] {
+        o.case("text", vec!["dec_json_dec".into(), hex(j)]);
+        o.case("text", vec!["uint_json_dec".into(), hex(j)]);
+    }
+    // random numerals with some characters written as \uXXXX escapes (either hex case), sometimes malformed
+    for _ in 0..(n / 4).max(50) {
+        let len = 1 + r.below(6) as usize;
+        let mut body = String::new();
+        for k in 0..len {
+            let c = if k > 0 && r.chance(1, 6) { b'.' } else { b'0' + r.below(10) as u8 };
+            match r.below(6) {
+                0 => body.push_str(&format!("\\u{:04x}", c as u32)),
+                1 => body.push_str(&format!("\\u{:04X}", c as u32)),
+                2 if r.chance(1, 8) => body.push_str(["\\x", "\\u00", "\\ud800", "\\", "\\n", "\\/"][r.below(6) as usize]),
+                _ => body.push(c as char),
+            }
+        }
+        let j = format!("\"{body}\"");
+        o.case("text", vec!["dec_json_dec".into(), hex(&j)]);
+        o.case("text", vec!["uint_json_dec".into(), hex(&j)]);
+    }
     // 2. values
     for i in 0..n {
         let v = gen_value(r);
